@@ -231,7 +231,11 @@ class C07(c01.C01):
           'Plus an oracle-only family (400 / 5000 cases): pg.functor instances (function- and class-based, any subset of '
           'arguments bound), pg.DNA of 3 search spaces with look-ups before cloning, oneof / manyof / floatv / nested hyper '
           'values with derived state, 6 user classes (own __deepcopy__ / __copy__: return self, __new__ + __dict__, rebuild; '
-          'plain) under pg.symbolize and pg.wrap nested in Dict / List / Object trees; cloned by clone / clone(deep) / '
+          'plain) under pg.symbolize and pg.wrap nested in Dict / List / Object trees; instances of 4 classes with class-level '
+          'flag defaults (allow_symbolic_mutation = False, allow_symbolic_assignment) whose sealed / allow_partial differ from '
+          'the class default (constructor argument, seal() afterwards, sealed inner container, nested instance); clone roots '
+          'that are not whole values (obj.sym_init_args of complete / partial objects and functors, inner Dict / List nodes, '
+          'DNA.children, OneOf.candidates); cloned by clone / clone(deep) / '
           'copy.copy / copy.deepcopy, then 0-4 mutations of either copy.')
   trusted_base = c01.C01.trusted_base + [
       'copy.deepcopy of non-symbolic leaves returns an independent object (harness class Opq)',
